@@ -35,7 +35,21 @@ class Presented(type("")):
 SUB = {}
 
 
-def construct(ver, s, rh=False, with_json=True, reparse=True, order=None, sub=False):
+def clone_of(obj, how):
+    """a copy of the object (copy / deepcopy / pickle round trip): a value must behave the same after being copied; where the object
+    cannot be copied that way the original is observed (copying is not what the properties are about, behaving differently is)"""
+    import copy, pickle
+    try:
+        if how == 0:
+            return copy.copy(obj)
+        if how == 1:
+            return copy.deepcopy(obj)
+        return pickle.loads(pickle.dumps(obj, protocol=(how - 2) if how - 2 <= pickle.HIGHEST_PROTOCOL else 2))
+    except Exception:  # noqa
+        return obj
+
+
+def construct(ver, s, rh=False, with_json=True, reparse=True, order=None, sub=False, clone=None):
     K = CLS[ver]
     if sub:     # a trivial user subclass: "every object" includes instances of subclasses, and alternate constructors must honour them
         if ver not in SUB:
@@ -45,6 +59,11 @@ def construct(ver, s, rh=False, with_json=True, reparse=True, order=None, sub=Fa
         obj = K.from_rh_vector(s) if rh else K(s)
     except Exception as e:  # noqa - any exception class is an observation
         return None, {"cls": "exc", "e": exc_obs(e)}
+    if clone is not None and not sub:          # (a class created at run time cannot be pickled by reference: subclasses are observed directly)
+        if clone < 5:
+            obj = clone_of(obj, clone)          # the copy is observed
+        else:
+            clone_of(obj, clone - 5)            # a copy is made and dropped, the original is observed: copying is a read-only use
     o = observe(obj, ver, with_json, order)
     o["cls"] = "ok"
     o["minor"] = getattr(obj, "minor_version", -1) if ver == "3" else -1
@@ -136,12 +155,12 @@ def main():
             if n % 4 == 3:          # every fourth event is computed in a freshly started worker thread
                 import threading
                 box = []
-                th = threading.Thread(target=lambda: box.append(construct(it["ver"], arg, rh=(op == "fromrh"), with_json=it.get("json", True), order=order, sub=(n % 7 == 6))))
+                th = threading.Thread(target=lambda: box.append(construct(it["ver"], arg, rh=(op == "fromrh"), with_json=it.get("json", True), order=order, sub=(n % 7 == 6), clone=((n // 11) % 10 if n % 11 == 10 else None))))
                 th.start()
                 th.join()
                 _, ev["out"] = box[0]
             else:
-                _, ev["out"] = construct(it["ver"], arg, rh=(op == "fromrh"), with_json=it.get("json", True), order=order, sub=(n % 7 == 6))
+                _, ev["out"] = construct(it["ver"], arg, rh=(op == "fromrh"), with_json=it.get("json", True), order=order, sub=(n % 7 == 6), clone=((n // 11) % 10 if n % 11 == 10 else None))
             if op == "fromrh":
                 raw = unesc(it["s"])
                 if "/" in raw:
